@@ -1,4 +1,4 @@
-import RsMatterVerif.Lemmas.BtpHandshake
+import RsMatterVerif.Lemmas.BtpLive
 import RsMatterVerif.Lemmas.BtpRing
 /-!
 # C18 — BTP delivers each message intact, once and in order, or fails cleanly
@@ -409,6 +409,119 @@ segment travels, `b` fetches exactly what was submitted. -/
 example : ((runLink (freshLink false true (some 100) (some 64))
     ([.send .a [9, 8, 7]] ++ handshakeOps ++ [.poll .a, .deliver .b, .fetch .b 2048])).b.fetched) =
     [([9, 8, 7], 2048)] := by decide
+
+/-! ## No deadlock (towards delivery under a fair schedule) -/
+
+theorem negWin_ge (ga gb : Option Nat) (rb : Bool) : 6 ≤ negWin ga gb rb := by
+  obtain ⟨m1, m2⟩ := negMtu_bounds ga gb rb
+  obtain ⟨r1, _⟩ := reqWin_bounds ga
+  obtain ⟨w, hw, _, h2⟩ := initialWindowSize_ok (mtu := negMtu ga gb rb) m1
+  unfold initialWindowSize at hw
+  have : ¬ (negMtu ga gb rb = 0) := by omega
+  simp only [this, if_false] at hw
+  have hw' := Except.ok.inj hw
+  have := h2 m2
+  unfold negWin; omega
+
+/-- **`never_dead`**: in every state reachable from two fresh ends it is never the case that both
+send windows are exhausted while no acknowledgement is travelling (the state from which nothing can
+ever be sent again — reachable in the code before the `is_full` fix, `corpus/C18/deadlock.txt`). -/
+theorem never_dead (ra rb : Bool) (ga gb : Option Nat) (ops : List Op) (hw : WfSched ops)
+    (hest : (runLink (freshLink ra rb ga gb) ops).a.e.s.established = true) :
+    ¬ Dead (runLink (freshLink ra rb ga gb) ops) := by
+  obtain ⟨_, hp⟩ := phase_run ra rb ga gb ops hw
+  cases hp with
+  | p0 _ sa => rw [sa] at hest; cases hest
+  | p1 _ sa => rw [sa] at hest; cases hest
+  | p2 _ sa => rw [sa] at hest; cases hest
+  | p3 _ h => rw [h.sa] at hest; cases hest
+  | sync h => exact h.nodead
+
+/-- **`never_stuck`** (absence of deadlock): in every state reachable from two fresh ends by ANY
+schedule, if an end has a message waiting to be sent then the link is not stuck: a segment is
+waiting to be delivered (and `Deliver` never fails, `never_refused`), or a complete message is
+waiting to be fetched, or the pump of one end emits a segment — polled now or, at the latest,
+`n` seconds from now when the peer's acknowledgement timer has fired. Under a schedule that keeps
+draining the queues, fetching, and polling after the timers, something therefore always moves. -/
+theorem never_stuck (ra rb : Bool) (ga gb : Option Nat) (ops : List Op) (hw : WfSched ops) (x : Side)
+    (hx : ((runLink (freshLink ra rb ga gb) ops).get x).e.sdu ≠ []) :
+    let l := runLink (freshLink ra rb ga gb) ops
+    (∃ y, l.inq y ≠ []) ∨ (∃ y, 0 < (l.get y).e.s.recv.msgCt) ∨
+    (∃ y n e' seg, (l.get y).e.processOutgoing (l.now + n) = .ok (e', seg) ∧ seg ≠ []) := by
+  obtain ⟨hl, hp⟩ := phase_run ra rb ga gb ops hw
+  intro l
+  have hne : ∀ p : List Nat, handshakeHdr.encode ++ p ≠ [] := by
+    intro p h0
+    have := hsLen p
+    rw [h0] at this; simp at this
+  cases hp with
+  | p0 pre sa =>
+    -- the initiator's pump emits the handshake request
+    right; right
+    refine ⟨.a, 0, { l.a.e with s := initSent ra }, reqBytes ga, ?_, hne _⟩
+    have h1 : l.a.e.s.prepTxHandshake l.a.e.gattMtu (l.now + 0) = .ok (initSent ra, reqBytes ga) := by
+      rw [sa, pre.gA, prepTxHandshake_init]
+    show l.a.e.processOutgoing (l.now + 0) = _
+    unfold End.processOutgoing
+    rw [h1]
+    simp only [reqBytes, hsLen, if_true]
+  | p1 _ _ _ qab =>
+    left; exact ⟨.b, by show l.qab ≠ []; rw [qab]; simp⟩
+  | p2 pre _ sb =>
+    -- the responder's pump emits the handshake response
+    right; right
+    have hpar := negPar ga gb rb
+    have h1 := prepTxHandshake_resp rb l.b.e.gattMtu (negMtu ga gb rb) (negWin ga gb rb) (l.now + 0) hpar.w1
+    rw [← sb] at h1
+    refine ⟨.b, 0, { l.b.e with s := { l.b.e.s with send := { windowSize := negWin ga gb rb, level := negWin ga gb rb - 1, lastSent := 0, sentAt := some (l.now + 0) }, handshakePending := false } }, respBytes (negMtu ga gb rb) (negWin ga gb rb), ?_, hne _⟩
+    show l.b.e.processOutgoing (l.now + 0) = _
+    unfold End.processOutgoing
+    rw [h1]
+    simp only [respBytes, hsLen, if_true]
+    rfl
+  | p3 dq h =>
+    left; exact ⟨.a, by show l.qba ≠ []; rw [h.qba]; simp⟩
+  | sync h =>
+    exact sync_enabled hl h (by have := negWin_ge ga gb rb; omega) x hx
+
+/-- The former deadlock (`corpus/C18/deadlock.txt`: window 6, both ends fill their send windows
+while the applications are slow) on the fixed model: once the applications have fetched and the
+acknowledgement timers have fired, everything that was submitted arrives and both send windows
+re-open. -/
+def deadlockSchedule : List Op := handshakeOps ++ [
+  .send .a [1], .poll .a, .deliver .b, .send .b [2], .poll .b, .deliver .a,
+  .send .a [3], .poll .a, .send .a [4], .poll .a, .send .a [5], .poll .a, .send .a [6], .poll .a,
+  .send .a [7], .poll .a,
+  .send .b [0x12], .poll .b, .send .b [0x13], .poll .b, .send .b [0x14], .poll .b, .send .b [0x15], .poll .b,
+  .deliver .a, .deliver .a, .deliver .a, .deliver .a, .deliver .b, .deliver .b, .deliver .b, .deliver .b, .deliver .b,
+  .fetch .a 100, .fetch .a 100, .fetch .a 100, .fetch .a 100, .fetch .a 100,
+  .fetch .b 100, .fetch .b 100, .fetch .b 100, .fetch .b 100, .fetch .b 100, .fetch .b 100,
+  .tick 15, .poll .a, .poll .b, .deliver .a, .deliver .b, .poll .a, .poll .b, .deliver .a, .deliver .b,
+  .fetch .a 100, .fetch .b 100]
+
+example :
+    let l := runLink (freshLink false false (some 247) (some 247)) deadlockSchedule
+    l.a.e.s.windowSize = 6 ∧ l.b.fetched.map (·.1) = l.a.submitted ∧ l.a.fetched.map (·.1) = l.b.submitted ∧
+    l.a.submitted.length = 6 ∧ l.b.submitted.length = 5 ∧ l.a.e.s.send.level = 5 ∧ l.b.e.s.send.level = 5 := by
+  decide
+
+/-- **Delivery under a fair schedule** (liveness), stated: for every schedule `ops` from two fresh
+ends and every message accepted by `send` at `x` (index `k` of `submitted`), every *fair*
+continuation eventually lets the other end fetch it — where a continuation `f : Nat → Op` is fair
+if every queue is drained (`deliver y` occurs infinitely often for both `y`), every pump runs after
+the acknowledgement timers have fired (`tick 15` followed by `poll y` infinitely often) and the
+applications fetch (`fetch y cap` with `cap ≥ 1232` infinitely often).
+Proved towards it: nothing is ever refused (`never_refused`), what is fetched is what was submitted
+in order (`in_order_once_fresh`), the link is never stuck (`never_stuck`, `never_dead`).
+Not proved: the well-founded measure that turns "something always moves" into "the message
+arrives" (it has to bound the acknowledgement ping-pong that BTP uses as keep-alive). -/
+def C18_live : Prop :=
+  ∀ (ra rb : Bool) (ga gb : Option Nat) (ops : List Op) (f : Nat → Op), WfSched ops → (∀ i, WfOp (f i)) →
+    (∀ y i, ∃ j ≥ i, f j = .deliver y) →
+    (∀ y i, ∃ j ≥ i, f j = .tick 15 ∧ f (j + 1) = .poll y) →
+    (∀ y i, ∃ j ≥ i, f j = .fetch y 1232) →
+    ∀ (x : Side) (k : Nat), k < ((runLink (freshLink ra rb ga gb) ops).get x).submitted.length →
+      ∃ n, k < ((runLink (freshLink ra rb ga gb) (ops ++ (List.range n).map f)).get x.other).fetched.length
 
 /-! ## The ring buffer: the real index arithmetic refines the byte queue of the session model -/
 
